@@ -717,6 +717,7 @@ func runC13(r *core.Run) (bool, string) {
 		"Injected runs count only when validated from their own strace log (kill: BEGIN seen, END not seen, the syscall being entered is the planned k-th syscall of the call; fault: exactly one (INJECTED) line of the planned syscall inside the markers). " +
 		"(e) links and descriptors (links_* keys), on DirFs and MemFs against a reference model in which AtomicCreate installs a fresh file under the name: directed and seeded sequences of AtomicCreate / Create+Append / Link / Delete over four names in two directories; after EVERY step every existing name is read through a fresh descriptor: the target holds exactly data and every other name — in particular a hard link of the file just replaced — is unchanged; " +
 		"a reader that keeps one descriptor open across replacements and reads in several ReadAt calls (1…4096 bytes) must assemble one complete written version (whether it is the version at Open is recorded, not decided); the same with concurrency: creators replacing different names that are hard links of one file, and chunked readers holding descriptors while a creator replaces the file. " +
+		"(f) what a FAILED call leaves behind (leftover_* and full_filesystem_* keys): every open/write/fsync/rename/close of AtomicCreate(d,f,data) fails with ENOSPC or EIO (that occurrence only, or from it on) and the same process goes on with AtomicCreate(d,h,data3): everything below the DirFs root must then be exactly the model (d/f old or new, d/g, d/h) and nothing else, and after a single failing occurrence the following call must succeed; and on a tmpfs of 256 KiB / 1 MiB mounted on the root in a mount namespace of the child: AtomicCreate(d,x,big) with big just over / 2× / 8× the capacity, once or three times, must leave d/x as it was and nothing else, and the following AtomicCreate(d,y,4 B / 8 KiB / capacity÷4) and AtomicCreate(d,x,4 B) must succeed with exactly their data. " +
 		"distinct = landed (setup, kill|errno, syscall, occurrence) points + concurrency scenarios + links observation classes")
 	r.Assume("kill -9 at a syscall boundary stands for a crash; real power loss is not produced: durability is decided on the recorded syscall order only")
 	r.Assume("MemFs readers do not Close (MemFs descriptors are inode numbers shared between openers — subject of C12); a DirFs List that misses the destination is counted inconclusive because List is documented as non-atomic")
@@ -731,6 +732,8 @@ func runC13(r *core.Run) (bool, string) {
 	phase("crash_and_faults")
 	c13PartialWrite(r)
 	phase("partial_write")
+	c13Leftovers(r)
+	phase("failed_call_leftovers")
 	c13Concurrency(r)
 	phase("concurrency")
 	c13LinksAndDescriptors(r)
@@ -743,6 +746,9 @@ func runC13(r *core.Run) (bool, string) {
 	}
 	if len(missing) > 0 {
 		return false, "no injection landed for: " + strings.Join(missing, ", ")
+	}
+	if r.NumViolations() == 0 && r.GetCount("leftover_faults_landed") < 20 {
+		return false, fmt.Sprintf("only %d faults of the leftover sweep landed", r.GetCount("leftover_faults_landed"))
 	}
 	if r.GetCount("recovery_runs") < 40 {
 		return false, "too few recovery runs"
